@@ -247,7 +247,7 @@ func cmdCheck(args []string) int {
 		fmt.Fprintln(os.Stderr, "govc: load failed:", err)
 		rp := writeReplay(*prop, "load", map[string]any{"obligation": "load", "error": err.Error(), "note": "the contracts no longer type-check against the working tree; every obligation of this property is undischarged"})
 		fmt.Printf("VIOLATION property=%s replay=%s no-failing-input-found\n", *prop, rp)
-		writeEvidence(*prop, *tier, seed, nil, nil, []violation{{Oblig: "load", Reason: err.Error()}}, nil, time.Since(start), nil)
+		writeEvidence(*prop, *tier, seed, nil, nil, []violation{{Oblig: "load", Reason: err.Error()}}, nil, nil, time.Since(start), nil)
 		return 1
 	}
 	loadMs := time.Since(t0).Milliseconds()
@@ -269,6 +269,7 @@ func cmdCheck(args []string) int {
 	}
 	var viols []violation
 	var known []string
+	knownObl := map[string]bool{}
 	var unprovedSeen []string
 	var overflowAssumed []string
 	seen := map[string]*Oblig{}
@@ -302,6 +303,7 @@ func cmdCheck(args []string) int {
 			if f.Kind == "finding" && f.Prop == *prop && f.Obligation == o.Name {
 				known = append(known, fmt.Sprintf("KNOWN-FINDING: property=%s %s %s", *prop, o.Name, f.Rest))
 				isKnown = true
+				knownObl[o.Name] = true
 			}
 		}
 		if isKnown {
@@ -364,7 +366,7 @@ func cmdCheck(args []string) int {
 	for _, oa := range overflowAssumed {
 		unprovedSeen = append(unprovedSeen, oa+" — 64-bit overflow not excluded; arithmetic treated as mathematical there (advisory obligation, not claimed)")
 	}
-	writeEvidence(*prop, *tier, seed, pr, lock[*prop], viols, known, time.Since(start), unprovedSeen)
+	writeEvidence(*prop, *tier, seed, pr, lock[*prop], viols, known, knownObl, time.Since(start), unprovedSeen)
 	if os.Getenv("GOVC_SLOW") != "" {
 		allO := append(append([]*Oblig{}, pr.Obligs...), pr.Canary...)
 		sort.Slice(allO, func(i, j int) bool { return allO[i].Ms > allO[j].Ms })
@@ -392,7 +394,7 @@ func writeReplay(prop, oblig string, body map[string]any) string {
 	return p
 }
 
-func writeEvidence(prop, tier string, seed int, pr *propRun, lock []lockEntry, viols []violation, known []string, wall time.Duration, unproved []string) {
+func writeEvidence(prop, tier string, seed int, pr *propRun, lock []lockEntry, viols []violation, known []string, knownObl map[string]bool, wall time.Duration, unproved []string) {
 	ev := map[string]any{"property_id": prop, "tier": tier, "seed": seed, "level": "proof", "wall_s": wall.Seconds(), "violations": len(viols)}
 	cov := map[string]any{}
 	cov["checker_cmd"] = fmt.Sprintf("/verif/bin/govc check -p %s -tier %s", prop, tier)
@@ -412,6 +414,7 @@ func writeEvidence(prop, tier string, seed int, pr *propRun, lock []lockEntry, v
 		callees := map[string]bool{}
 		inl := map[string]bool{}
 		unp := map[string]bool{}
+		knownOpen := []any{}
 		for _, u := range unproved {
 			unp[strings.SplitN(u, " — ", 2)[0]] = true
 		}
@@ -441,6 +444,13 @@ func writeEvidence(prop, tier string, seed int, pr *propRun, lock []lockEntry, v
 		for _, o := range pr.Obligs {
 			if unp[o.Name] || (o.Kind == "ovf" && o.Status != "unsat") {
 				continue // not claimed (listed under unproved_not_claimed)
+			}
+			if knownObl[o.Name] && o.Status != "unsat" {
+				// a recorded finding: reported on its KNOWN-FINDING line and under known_findings /
+				// known_finding_obligations, not counted among the obligations claimed as proved
+				// (the same accounting as the check's "claimed" count)
+				knownOpen = append(knownOpen, map[string]any{"obligation": o.Name, "result": o.Status, "solver": o.Solver, "ms": o.Ms, "at": o.Pos, "what": o.Desc})
+				continue
 			}
 			n++
 			solverMs += o.Ms
@@ -474,6 +484,7 @@ func writeEvidence(prop, tier string, seed int, pr *propRun, lock []lockEntry, v
 		cov["inlined_callees"] = keys(inl)
 		cov["locked_obligations"] = len(lock)
 		cov["known_findings"] = known
+		cov["known_finding_obligations"] = knownOpen
 		cov["notes"] = notes
 		st := keys(stubs)
 		cov["stubs_used"] = st
